@@ -10,6 +10,7 @@ from collections import defaultdict
 TRANSPARENT_CLS = {
     'ParenExpr', 'MaterializeTemporaryExpr', 'ExprWithCleanups', 'CXXBindTemporaryExpr',
     'ConstantExpr', 'SubstNonTypeTemplateParmExpr', 'CXXFunctionalCastExpr_NoOp',
+    'CXXRewrittenBinaryOperator',     # C++20: a != b rewritten as !(a == b); the single child is the semantic form
 }
 TRANSPARENT_CASTS = {'NoOp', 'LValueToRValue', 'DerivedToBase', 'UncheckedDerivedToBase',
                      'BaseToDerived', 'FunctionToPointerDecay', 'ArrayToPointerDecay'}
